@@ -9,6 +9,8 @@ compared event by event with the model's RunExit steps and whose outcome with Fi
 from __future__ import annotations
 
 import contextlib
+import json
+import functools
 import multiprocessing as mp
 import os
 
@@ -19,7 +21,7 @@ from .report import Verdict
 from .tlc import MachineryError, read_ndjson, run_tlc
 
 EXIT_KINDS = ["acm", "cm", "pusha", "pushs", "pushcm"]
-CB_KINDS = ["cba", "cbs", "cbk"]
+CB_KINDS = ["cba", "cbs", "cbk", "cbp", "cbo"]   # async def / def / keyword-only def / partial(async def) / callable object
 
 
 class BlockError(Exception):
@@ -114,6 +116,15 @@ class World:
                 w.args_ok = False
             return w.core(e, beh, None)
 
+        class ObjCb:              # an object whose call returns a coroutine
+            def __call__(self, a, kw=None):
+                return acb(a, kw)
+
+        async def acb3(_extra, a, kw=None):
+            return await acb(a, kw)
+
+        pcb = functools.partial(acb3, None)
+
         def kcb(kw=None):        # registered with a keyword argument only
             if kw != 1:
                 w.args_ok = False
@@ -142,6 +153,10 @@ class World:
                 stack.callback(acb, "arg", kw=1)
             elif ckind == "cbk":
                 stack.callback(kcb, kw=1)
+            elif ckind == "cbp":
+                stack.callback(pcb, "arg", kw=1)
+            elif ckind == "cbo":
+                stack.callback(ObjCb(), "arg", kw=1)
             else:
                 stack.callback(scb, "arg", kw=1)
 
@@ -160,6 +175,10 @@ class World:
                 stack.push_async_callback(acb, "arg", kw=1)
             elif ckind == "cbk":
                 stack.callback(kcb, kw=1)
+            elif ckind == "cbp":
+                stack.push_async_callback(pcb, "arg", kw=1)
+            elif ckind == "cbo":
+                stack.push_async_callback(ObjCb(), "arg", kw=1)
             else:
                 stack.callback(scb, "arg", kw=1)
 
@@ -481,6 +500,28 @@ INVARIANT OnlyOwner
 """ + ("ACTION_CONSTRAINT EmitEdge\n" if edges else "")
 
 
+def flavour_dependence(seed):
+    """C03 for exit callbacks / exit handlers: one history, all five concrete kinds of each entry class.
+    A history whose replay fails for some kinds and passes for others depends on the flavour."""
+    res = run_tlc("ExitStack", cfg_text(2, 4), outfiles=["edges.ndjson"], timeout=3000)
+    paths = build_paths(read_ndjson(res["files"]["edges.ndjson"]), lambda f: f["n"] == 0 and f["nent"] == 0 and f["unw"]["which"] == "none")
+    salts = [0, 1, 2, 3, 4]
+    jobs = [(p, s_) for p in paths for s_ in salts]
+    bad = {}
+    with mp.Pool(min(16, os.cpu_count() or 4)) as pool:
+        for out in pool.imap_unordered(replay_path, jobs, chunksize=max(1, len(jobs) // 256)):
+            for sig, d in out:
+                bad.setdefault(json.dumps(d["path"]), {})[d["salt"]] = (sig, d)
+    found = []
+    for _, per in bad.items():
+        if len(per) < len(salts):
+            sig, d = sorted(per.items())[0][1]
+            kinds = {s_: [concrete(e + 1, "cb", s_) for e in range(2)] + [concrete(e + 1, "exit", s_) for e in range(2)] for s_ in per}
+            found.append(("C03/ExitStack/" + sig.split("/", 2)[2] + "-with-some-callback-flavours-only",
+                          {**d, "fails_with_salts": sorted(per), "passes_with_salts": [s_ for s_ in salts if s_ not in per], "kinds_by_salt": kinds}))
+    return found, len(jobs), {"states": res["distinct"], "transitions": res["generated"]}
+
+
 TIERS = {"quick": [(2, 5), (3, 4)], "thorough": [(2, 6), (3, 5)]}
 # model-checked only (invariants), too many transitions to replay one by one
 MC_ONLY = {"quick": [], "thorough": [(3, 6), (4, 5)]}
@@ -500,7 +541,7 @@ def check(prop, tier, seed, into=None):
         paths = build_paths(edges, lambda f: f["n"] == 0 and f["nent"] == 0 and f["unw"]["which"] == "none")
         # only complete operations end a replay: keep paths whose last step closes an operation
         tot["paths"] += len(paths)
-        salts = [0, 1] if tier == "quick" else [0, 1, 2]
+        salts = [0, 1, 2] if tier == "quick" else [0, 1, 2, 3, 4]     # entries 1..3 + salts 0..2 reach all five kinds of a class
         jobs = [(p, s) for p in paths for s in salts]
         with mp.Pool(min(16, os.cpu_count() or 4)) as pool:
             for out in pool.imap_unordered(replay_path, jobs, chunksize=max(1, len(jobs) // 256)):
